@@ -470,9 +470,10 @@ PROPERTIES["C11"] = {
     "assumptions": [
         "bounded: <= 2 pairs x <= 1-byte values (quick), <= 3 x <= 2 (thorough); all u32 tags; the i32::MAX rule over all "
         "usize lengths; pair count > i32::MAX not materialisable (inspection only)",
-        "sink = a recording ZeroCopySink defined in the harness: MessageWrapper is generic in its sink and OwningIovec / the "
-        "HCOBS Encoder cannot be loaded into Kani (arena; measured out-of-memory) -- 'all ZeroCopySink targets' is therefore "
-        "covered only through the trait interface",
+        "sink (Kani) = a recording ZeroCopySink defined in the harness: MessageWrapper is generic in its sink and OwningIovec / the "
+        "HCOBS Encoder cannot be loaded into Kani (arena; measured out-of-memory); the native cross-check also writes every list into "
+        "a REAL OwningIovec, and the hcobs search drives the Encoder through its ZeroCopySink impl (append_copy / append_borrow) -- "
+        "'all ZeroCopySink targets' is covered that far, bounded",
         "slice::sort_by_key runs as real code (stability is checked against a reference insertion sort)",
         "beyond the Kani bounds: a NATIVE bounded cross-check (Engine C, never counted as proof) runs the same triple on lists of "
         "up to 72 (quick) / 300 (thorough) pairs -- the standard sorts change algorithm above ~20 elements",
